@@ -40,8 +40,11 @@ def parseOp (tok : String) : Option Op :=
     | _ => none
   | _ => none
 
-def showObs : Obs → String
-  | .val v => s!"v{v}"
+/-- targets whose result type is an interface or a slice configure token `t` as nil when `t % 5 = 0` -/
+def nilKinds : List String := ["fe", "fi", "fb"]
+
+def showObs (tgt : String) : Obs → String
+  | .val v => if nilKinds.contains tgt && v % 5 == 0 then "vnil" else s!"v{v}"
   | .nomatch => "P"
   | .oob => "O"
   | .orig => "G"
@@ -75,6 +78,29 @@ def parseEv (tok : String) : Option Ev :=
     | _ => none
   | _ => none
 
+def kinds : List String := ["f1", "f2", "me", "if", "v0", "v1", "v2", "vm", "fe", "fi", "fb", "xf"]
+def siblingKinds : List String := ["f1", "me", "if", "fe"]
+
+/-- an op of the model, or `T:k` = continue on target `k` (two targets of the same signature mocked through one builder:
+    in the model two mockers share nothing) -/
+def parseTok (tok : String) : Option (Op ⊕ Nat) :=
+  match tok.splitOn ":" with
+  | ["T", k] => (parseNat k).map .inr
+  | _ => (parseOp tok).map .inl
+
+/-- (observations in call order, state of target 0, state of target 1, target 1 was used) -/
+def runTwo (ops : List (Op ⊕ Nat)) : List Obs × Option When × Option When × Bool :=
+  let step := fun (acc : List Obs × Option When × Option When × Nat × Bool) (o : Op ⊕ Nat) =>
+    let (obs, s0, s1, act, used) := acc
+    match o with
+    | .inr k => (obs, s0, s1, k, used || k == 1)
+    | .inl op =>
+      let r := opStep (if act == 0 then s0 else s1) op
+      let obs' := match r.2 with | some ob => ob :: obs | none => obs
+      if act == 0 then (obs', r.1, s1, act, used) else (obs', s0, r.1, act, used)
+  let (obs, s0, s1, _, used) := ops.foldl step ([], none, none, 0, false)
+  (obs.reverse, s0, s1, used)
+
 def handle (toks : List String) : Option String :=
   match toks with
   | ["c05.serve", n, c] =>
@@ -84,12 +110,14 @@ def handle (toks : List String) : Option String :=
       some (if r.1 < n then s!"idx={r.1} cur={r.2}" else s!"idx=oob cur={c}")
     | _, _ => some "bad-op"
   | "c05.seq" :: tgt :: ops =>
-    if !(["f1", "f2", "me", "if", "v0", "v1", "v2", "vm"].contains tgt) then some "bad-op" else   -- all mocker kinds share one model
-    match ops.mapM parseOp with
+    if !(kinds.contains tgt) then some "bad-op" else   -- all mocker kinds share one model
+    match ops.mapM parseTok with
     | some ops =>
-      let obs := runOps none ops
-      let o := if obs.isEmpty then "-" else String.intercalate " " (obs.map showObs)
-      some s!"{o} | {showState (endState none ops)}"
+      if ops.any (fun o => match o with | .inr k => k > 1 || (k == 1 && !(siblingKinds.contains tgt)) | _ => false) then some "bad-op" else
+      let r := runTwo ops
+      let o := if r.1.isEmpty then "-" else String.intercalate " " (r.1.map (showObs tgt))
+      let st := if r.2.2.2 then s!"{showState r.2.1} || {showState r.2.2.1}" else showState r.2.1
+      some s!"{o} | {st}"
     | none => some "bad-op"
   | "c05.hist" :: n :: evs =>
     match parseNat n, evs.mapM parseEv with
